@@ -55,4 +55,35 @@ def sameShape : List Field → List Field → Bool
   | f :: fs, g :: gs => sameKind f g && sameShape fs gs
   | _, _ => false
 
+/-- the kind of value a format position renders: `%d` of a uint64, `%s` of `Amount.String()`, `%x` of a string -/
+inductive Kind where
+  | num
+  | amt
+  | str
+deriving DecidableEq, Repr
+
+def kindOf : Field → Kind
+  | .num _ => .num
+  | .amt _ => .amt
+  | .nilAmt => .amt
+  | .str _ => .str
+
+/-- the kind a Sprintf verb of a `ClaimHash` format stands for (any other verb: not a modelled format) -/
+def verbKind (verb : String) : Option Kind :=
+  if verb == "%d" then some .num else if verb == "%s" then some .amt else if verb == "%x" then some .str else none
+
+/-- the shape of a claim type: the kinds of its format's verbs, in order (`none` if some verb is not modelled) -/
+def shapeOfVerbs : List String → Option (List Kind)
+  | [] => some []
+  | v :: vs =>
+    match verbKind v, shapeOfVerbs vs with
+    | some k, some ks => some (k :: ks)
+    | _, _ => none
+
+/-- a field list is an instance of a shape: same length, every field of the kind of its position -/
+def hasShape : List Kind → List Field → Bool
+  | [], [] => true
+  | k :: ks, f :: fs => (kindOf f == k) && hasShape ks fs
+  | _, _ => false
+
 end Paloma.ClaimHash
